@@ -13,7 +13,14 @@ EXTRA = {
     "C05-1": ["C11"], "C06-1": ["C12"], "C09-1": ["C18"], "C09-2": ["C12"], "C14-2": ["C07"], "C16-1": ["C04", "C08", "C09"],
     "C04-1": ["C12"], "C04-2": ["C13"], "C13-2": ["C04"], "C08-2": ["C09"], "C10-1": ["C01"], "C01-2": ["C02", "C10"], "C02-1": ["C01"],
     "C15-1": ["C08"], "C08-1": ["C15"], "C18-1": ["C09"], "C20-1": [], "C03-2": ["C02"],
+    # round 2
+    "C01-3": ["C08", "C10"], "C01-4": ["C04", "C09"], "C02-3": ["C04", "C09"], "C03-3": ["C14"], "C03-4": ["C14"], "C06-3": ["C10"], "C06-4": ["C09"],
+    "C07-3": ["C08"], "C07-4": ["C18", "C09"], "C08-3": ["C10"], "C08-4": ["C06"], "C09-3": ["C08"], "C09-4": ["C15"], "C10-3": ["C01"], "C10-4": ["C09"],
+    "C12-4": ["C13"], "C13-3": ["C12"], "C14-3": ["C03"], "C17-4": ["C13"], "C18-3": ["C09"], "C20-4": ["C05"],
 }
+EXTRA_FILE = os.path.join(VERIF, "tools", "seed_extra.json")
+if os.path.exists(EXTRA_FILE):
+    EXTRA.update(json.load(open(EXTRA_FILE)))
 
 
 def sh(cmd, timeout=3000):
